@@ -368,7 +368,8 @@ def write_evidence(check, tier, seed, agg, wall, exhaustive, nunits, done_units,
     cov = {
         'evaluations': agg.evals,
         'distinct_nontrivial': len(agg.nontrivial),
-        'rule': check.RULE,
+        'rule': check.RULE + (' Deep probes (a fixed sparse grid of large configurations, every point executed): ' + check.DEEP_PROBES + '.'
+                              if getattr(check, 'DEEP_PROBES', None) else ''),
         'samples': samples,
         'states': len(agg.states),
         'transitions': agg.events,
